@@ -80,7 +80,11 @@ def run(ctx):
                     pass
     ctx.count("schemas_from_declaration_chains", len(chained))
     reqs, info = [], []
+    from d42.declaration.types import GenericTypeAliasSchema
     for s, w in pairs + extra + chained:
+        if any(isinstance(x, GenericTypeAliasSchema) for x in rebuild.subschemas(s)):
+            ctx.count("skipped_alias")       # the property is about schemas without type aliases or custom types
+            continue
         nested = len(rebuild.subschemas(s)) > 1
         ctx.case(repr(s), nested)
         if has_nonfinite(s):
